@@ -837,6 +837,16 @@ class GroupBy:
         applying the function to each chunk, and then combining the results.
         Thus, the function is applied in parallel across both the chunks of group keys and the multiple value arrays.
         """
+        if (
+            self.key_is_chunked
+            and mask is not None
+            and not isinstance(mask, slice)
+            and not pd.api.types.is_bool_dtype(mask)
+        ):
+            # integer positions may repeat or be unordered, which the per-chunk boolean
+            # masks cannot express: use one global code array for this kind of mask
+            self._unify_group_key_chunks()
+
         group_key, first_chunk_in, mask_chunks = (
             self._resolve_mask_argument_into_chunks(mask)
         )
